@@ -43,6 +43,7 @@ CLAIMS = {
             "Lean 4, for EVERY side n (not only the 40 legal ones), every mask number and EVERY well-formed matrix: the model sweep flips exactly the Data-typed cells where the ISO "
             "Table 10 condition holds (C08_mask_flips: induction over the sweep + SweepSym.count_parity: visit parity of each of the eight sweeps = Table 10 condition proved symbolically for EVERY side n, no native_decide), "
             "involution, pair difference, same unmasked matrix (C08_involution, C08_pair, C08_unmask_same); C08_final_pair / C08_final_unmask: two FINAL symbols of the same codewords built with masks a and b differ on encoding-region modules exactly where the ISO conditions disagree and are identical on every module that is neither encoding region nor format information, for every codeword sequence and level. Exhaustive unit "
+            "C08_built_pair (as the property is worded, at the builder): for EVERY input and every level / mode / version option, forcing mask a and forcing mask b either both fail with the same error or both succeed (build_forced_pair); the two symbols report the same version, level and mode and masks a and b, and their matrices are final matrices of ONE codeword sequence, hence differ exactly where the ISO conditions disagree on the encoding region and agree off encoding region and format information. "
             "correspondence: real datamasking::mask on the real blank symbols 40 x 8 x 2; all 28 mask pairs of real builds.",
             "Trusted: Lean kernel (the mask-sweep fact is symbolic since round 8; remaining native_decide facts reached through the built-symbol theorems: templateOk/scanOk); hand model of datamasking.rs tied by exhaustive unit correspondence.",
             "Lean 4 symbolic induction + tier N parity checker + exhaustive differential unit check"),
